@@ -176,12 +176,14 @@ Qed.
 
 Theorem chain_refines_spec_real macf n o l :
   (forall k m, length (macf k m) = n) -> (forall k m, Forall is_byte (macf k m)) -> wf_chain l ->
+  chain_ok (real_O macf n) o l ->
   Forall2 ok_at (run_chain (real_O macf n) o None l) (spec_chain (real_O macf n) o None true l).
 Proof.
-  intros Hl Hb Wl. apply (chain_refines_spec_on (real_O macf n) o WF).
+  intros Hl Hb Wl Hok. apply (chain_refines_spec_on (real_O macf n) o WF).
   - exact Hl.
   - apply real_codec_ok, Hb.
   - reflexivity.
+  - exact Hok.
   - unfold wf_chain, chain_closed in *. rewrite Forall_forall in *. intros r Hr. specialize (Wl r Hr).
     rewrite Forall_forall in *. intros pt Hp. apply wf_op_closed, Wl, Hp.
   - exact Logic.I.
@@ -189,7 +191,7 @@ Qed.
 
 (* with a (toy) MAC of one byte there is no premise at all besides well-formed arguments *)
 Definition toy_mac (k m : text) : text := [N.of_nat (length k + length m) mod 256]%N.
-Theorem chain_refines_spec_real_closed o l : wf_chain l ->
+Theorem chain_refines_spec_real_closed o l : wf_chain l -> chain_ok (real_O toy_mac 1) o l ->
   Forall2 ok_at (run_chain (real_O toy_mac 1) o None l) (spec_chain (real_O toy_mac 1) o None true l).
 Proof.
   apply chain_refines_spec_real; [reflexivity|]. intros k m. repeat constructor. unfold is_byte. lia.
